@@ -575,8 +575,17 @@ func (w *World) projectField(fi *FuncInfo, fd *funcDefs, x ast.Expr, field strin
 			if _, isRange := ffd.rangeOf[o]; isRange {
 				return false
 			}
-			if _, _, isParam := w.argsBoundTo(o); isParam {
-				return false
+			if sites, exprs, isParam := w.argsBoundTo(o); isParam {
+				// the parameter struct of a split-off helper: the literal each (relevant) caller builds
+				if len(sites) == 0 {
+					return false
+				}
+				for i, s := range sites {
+					if !resolve(s.Fi, w.defsOf(s.Fi), exprs[i], d+1) {
+						return false
+					}
+				}
+				return true
 			}
 			ds := ffd.defs[o]
 			if len(ds) == 0 && len(ffd.fieldDefs[o]) == 0 {
